@@ -50,8 +50,8 @@ class FakeFS:
             k = f["kind"]
             if k == "crash_before":
                 raise SimCrash(f"crash before write #{i}")
-            if k in ("enospc", "eio"):
-                raise OSError(errno.ENOSPC if k == "enospc" else errno.EIO, "injected " + k)
+            if k in ("enospc", "eio", "emfile"):
+                raise OSError({"enospc": errno.ENOSPC, "eio": errno.EIO, "emfile": errno.EIO}[k], "injected " + k)
             if k == "torn":
                 n = int(len(data) * f.get("frac", 0.5))
                 self.files[path] = (self.files.get(path, b"") if append else self.files.get(path, b"")) + data[:n]
@@ -66,15 +66,19 @@ class FakeFS:
         binary = "b" in mode
         if "r" in mode and "+" not in mode:
             f, i = self._sys("open-r", path)
+            if f and f["kind"] == "emfile":
+                # the open for reading fails although the file is there: out of descriptors
+                self._fire(f)
+                raise OSError(errno.EMFILE, "injected emfile")
             if path not in self.files:
                 raise FileNotFoundError(errno.ENOENT, "No such file", path)
             data = bytes(self.files[path])
             fh = _ReadFile(self, path, data) if binary else io.StringIO(data.decode())
             return fh
         f, i = self._sys("open-w", path)
-        if f and f["kind"] in ("enospc", "eio"):
+        if f and f["kind"] in ("enospc", "eio", "emfile"):
             self._fire(f)
-            raise OSError(errno.ENOSPC if f["kind"] == "enospc" else errno.EIO, "injected " + f["kind"])
+            raise OSError({"enospc": errno.ENOSPC, "eio": errno.EIO, "emfile": errno.EMFILE}[f["kind"]], "injected " + f["kind"])
         if f and f["kind"] == "crash_before":
             self._fire(f)
             raise SimCrash(f"crash before open #{i}")
